@@ -20,7 +20,7 @@
     5. `loadStateObj_ok`, `loadState_saveState`, `loadState_saveState_exact`   (`Saveable`, `ExactState`)
     6. `treeOkB_sound`, `create_saveable`
     7. a concrete created story, a hand-made mid-game state, the checked deviations (a)–(g)
-    8. `nonfinite_float_not_loadable`, `restoredState_eq`, `loadState_saveState_self`,
+    8. `nonfinite_float_clamped`, `nonfinite_float_not_exact`, `restoredState_eq`, `loadState_saveState_self`,
        `loadState_saveState_state_eq`
     9. `saveableB_sound` (executable `Saveable`)
    10. `exRun_saveable`, `exRoundTrip`: a state reached by running the interpreter, saved, loaded into a
@@ -98,16 +98,48 @@ def f32Text (f : Float32) : String :=
   let d := F32.display f
   if d.toList.contains '.' then d else d ++ ".0"
 
+/-- The float whose text `write_rtobject` puts in a save: JSON has no NaN or infinities, so NaN is
+    written as `0.0` and an infinity as `±3.4e38` (the `f32` with bits `0x7F7FC99E` / `0xFF7FC99E`);
+    a finite float is written as it is. -/
+def clampF32 (f : Float32) : Float32 :=
+  if f.isNaN then Float32.ofBits 0
+  else if f.isInf then (if f > 0.0 then Float32.ofBits 0x7F7FC99E else Float32.ofBits 0xFF7FC99E)
+  else f
+
+theorem f32ToJson_eq (f : Float32) : f32ToJson f = .flt (f32Text (clampF32 f)) := rfl
+
+theorem clampF32_finite {f : Float32} (h1 : f.isNaN = false) (h2 : f.isInf = false) : clampF32 f = f := by
+  simp [clampF32, h1, h2]
+
+/-- The clamped float is one of three constants, or the (finite) float itself: it is finite. -/
+theorem clampF32_isFinite (f : Float32) : (clampF32 f).isNaN = false ∧ (clampF32 f).isInf = false := by
+  have c0 : (Float32.ofBits 0).isNaN = false ∧ (Float32.ofBits 0).isInf = false := by decide +kernel
+  have c1 : (Float32.ofBits 0x7F7FC99E).isNaN = false ∧ (Float32.ofBits 0x7F7FC99E).isInf = false := by
+    decide +kernel
+  have c2 : (Float32.ofBits 0xFF7FC99E).isNaN = false ∧ (Float32.ofBits 0xFF7FC99E).isInf = false := by
+    decide +kernel
+  unfold clampF32
+  by_cases h1 : f.isNaN = true
+  · simp only [h1, if_true]; exact c0
+  · by_cases h2 : f.isInf = true
+    · simp only [h1, h2, Bool.false_eq_true, if_false, if_true]
+      split
+      · exact c1
+      · exact c2
+    · simp only [h1, h2, Bool.false_eq_true, if_false]
+      exact ⟨by simp [h1], by simp [h2]⟩
+
 /-- A list item that survives `fullName` / `ofFullName`: it has an origin, and
     neither the origin name nor the item name contains a dot. -/
 def SaveableItem (i : ListItem) : Prop :=
   ∃ o, i.origin = some o ∧ '.' ∉ o.toList ∧ '.' ∉ i.name.toList
 
-/-- Values that `write_rtobject` / `jtoken_to_runtime_object` carry through a save. -/
+/-- Values that `write_rtobject` / `jtoken_to_runtime_object` carry through a save.  Every float
+    is: a non-finite one is written as a finite number (`clampF32`) and so loads, as that number. -/
 def SaveableVal : Val → Prop
   | .bool _ => True
   | .int i => inI32 i = true
-  | .float f => f.isNaN = false ∧ f.isInf = false
+  | .float _ => True
   | .str _ => True
   | .list l => ∀ kv ∈ l.items, SaveableItem kv.1 ∧ inI32 kv.2 = true
   | .dtarget p => p.WF
@@ -132,10 +164,10 @@ def normList (l : InkList) : InkList :=
   { items := l.items, origins := [],
     initialOrigins := if l.items.isEmpty then l.initialOrigins else [] }
 
-/-- Normal form of a value after a save/load: a float goes through its decimal text,
-    a list loses its resolved origins. -/
+/-- Normal form of a value after a save/load: a float goes through the decimal text of its
+    clamped form (`clampF32`: itself if it is finite), a list loses its resolved origins. -/
 def normVal : Val → Val
-  | .float f => .float (Load.floatOfRaw (f32Text f))
+  | .float f => .float (Load.floatOfRaw (f32Text (clampF32 f)))
   | .list l => .list (normList l)
   | v => v
 
@@ -266,8 +298,7 @@ theorem readObj_objJson (o : Obj) (h : SaveableObj o) : readObj (objJson o) = .o
       have hi : inI32 i = true := h
       simp [objJson, normObj, normVal, readObj, Load.tokenToObj, hi, inI64_of_inI32 hi]
     | float f =>
-      obtain ⟨h1, h2⟩ := (h : f.isNaN = false ∧ f.isInf = false)
-      simp [objJson, normObj, normVal, readObj, Load.tokenToObj, f32ToJson, h1, h2, f32Text]
+      simp [objJson, normObj, normVal, readObj, Load.tokenToObj, f32ToJson_eq]
     | str s => exact string_roundtrip s
     | list l => exact list_roundtrip l h
     | dtarget p =>
@@ -284,10 +315,11 @@ theorem readObj_writeObj (o : Obj) (h : SaveableObj o) :
     (writeObj o).bind readObj = .ok (normObj o) := by
   rw [writeObj_eq o h]; exact readObj_objJson o h
 
-/-- Objects whose normal form is the object itself: no float whose text does not parse back
-    to it, no list with resolved origins or stale initial origins. -/
+/-- Objects whose normal form is the object itself: no non-finite float (it comes back as the
+    finite number it is written as), no float whose text does not parse back to it, no list with
+    resolved origins or stale initial origins. -/
 def ExactVal : Val → Prop
-  | .float f => Load.floatOfRaw (f32Text f) = f
+  | .float f => f.isNaN = false ∧ f.isInf = false ∧ Load.floatOfRaw (f32Text f) = f
   | .list l => l.origins = [] ∧ (l.items ≠ [] → l.initialOrigins = [])
   | _ => True
 
@@ -297,7 +329,9 @@ def ExactObj : Obj → Prop
 
 theorem normVal_eq_self (v : Val) (h : ExactVal v) : normVal v = v := by
   cases v with
-  | float f => simp only [normVal]; rw [(h : Load.floatOfRaw (f32Text f) = f)]
+  | float f =>
+    obtain ⟨h1, h2, h3⟩ := (h : f.isNaN = false ∧ f.isInf = false ∧ Load.floatOfRaw (f32Text f) = f)
+    simp only [normVal, clampF32_finite h1 h2, h3]
   | list l =>
     obtain ⟨h1, h2⟩ := (h : l.origins = [] ∧ (l.items ≠ [] → l.initialOrigins = []))
     obtain ⟨items, origins, io⟩ := l
@@ -443,7 +477,8 @@ def elemJson (root : Obj) (el : Element) : Json :=
     ++ tempsJson el.temps)
 
 /-- The pointer that `pointer_at_path` builds for the path of the object at `a`: the object
-    itself if it is a named container, else its slot in the parent; the root gives null. -/
+    itself if it is a named container, else its slot in the parent (the index goes through
+    `index as i32`, i.e. `wrapI32`); the root gives null. -/
 def ptrOfAddr (root : Obj) (a : Addr) : Ptr :=
   match a.getLast? with
   | none => Ptr.null
@@ -453,7 +488,7 @@ def ptrOfAddr (root : Obj) (a : Addr) : Ptr :=
     | some c =>
       match c.validName, s with
       | some _, _ => { container := some a, index := -1 }
-      | none, .idx i => { container := some a.dropLast, index := i }
+      | none, .idx i => { container := some a.dropLast, index := wrapI32 i }
       | none, .named _ => Ptr.null
 
 /-- The previous pointer after a save/load: it is saved as the path of the object it resolves
@@ -642,7 +677,11 @@ theorem pointerAtPath_pathOf {root : Obj} (hwf : WFTree root) (a : Addr) (o : Ob
           | none =>
             simp only [hv] at hk
             cases s with
-            | named key => cases hk
+            | named key =>
+              -- a named-only child of a well-formed node carries its key as (valid) name
+              simp only [Obj.child] at hc
+              have := ((hwf b par hb).namedKeys key c hc).1
+              rw [hv] at this; cases this
             | idx i =>
               simp only [Option.some.injEq] at hk
               subst hk
@@ -987,7 +1026,9 @@ def flowJson (root : Obj) (f : Flow) : Json :=
 
 /-- **The invariant of level 4.**  Besides the well-formedness of the parts: every choice has a
     thread; a choice whose thread index is the index of a thread on the call stack carries that
-    thread (up to the normal form); two choices with the same thread index carry the same thread. -/
+    thread (up to the normal form); two choices with the same thread index carry the same thread;
+    the thread of a choice has a call stack (`Flow::from_json` rejects a choice thread with an
+    empty call stack: choosing the choice makes that thread the current one). -/
 structure FlowOK (root : Obj) (f : Flow) : Prop where
   callstack : CallStackOK root f.callstack
   output : ∀ o ∈ f.output, SaveableObj o
@@ -996,6 +1037,7 @@ structure FlowOK (root : Obj) (f : Flow) : Prop where
     f.callstack.getThreadWithIndex t.index = some t' → normThread root t' = normThread root t
   sameIndex : ∀ c₁ ∈ f.choices, ∀ c₂ ∈ f.choices, ∀ t₁ t₂, c₁.thread = some t₁ → c₂.thread = some t₂ →
     t₁.index = t₂.index → normThread root t₁ = normThread root t₂
+  choiceThreadNonempty : ∀ c ∈ f.choices, ∀ t, c.thread = some t → t.callstack ≠ []
 
 /-- A choice after a save/load: its thread in normal form; `originalThreadIndex` (written as the
     thread's index, and not used by the interpreter) becomes that index. -/
@@ -1117,8 +1159,13 @@ theorem readFlow_ok {root : Obj} (ht : TreeOK root) (name : String) (f : Flow) (
         cases hx : extraPairs f with
         | nil => rw [hx] at hmemx; cases hmemx
         | cons _ _ => rfl
+      have hcs : (normThread root t).callstack.isEmpty = false := by
+        have := h.choiceThreadNonempty c hc t hthr
+        cases hcs : t.callstack with
+        | nil => exact absurd hcs this
+        | cons _ _ => simp [normThread, hcs]
       simp only [hne, Bool.false_eq_true, if_false, Option.bind_some, hlook, threadJson_isObj, if_true,
-        readThread_ok ht t₂ htok₂, hnorm, normChoice, hthr, Option.map_some, Option.map_none]
+        readThread_ok ht t₂ htok₂, hnorm, hcs, normChoice, hthr, Option.map_some, Option.map_none]
 
 /-- **Level 4 (flows).** -/
 theorem readFlow_writeFlow {root : Obj} (ht : TreeOK root) (name : String) (f : Flow) (h : FlowOK root f) :
@@ -1557,7 +1604,7 @@ theorem appendIdx_wf {cp : Path} (hwf : cp.WF) (hrel : cp.rel = false) (n : Nat)
 theorem pointerAtPath_appendIdx {root : Obj} {a : Addr} {cp : Path} (hp : pathOf root a = some cp)
     (hres : contentAtPath root [] cp.comps = { addr := a, approximate := false })
     (hisc : isContainerAt root a = true) (n : Nat) :
-    pointerAtPath root (cp.appendComp (.idx n)) = .ok { container := some a, index := n } := by
+    pointerAtPath root (cp.appendComp (.idx n)) = .ok { container := some a, index := wrapI32 n } := by
   have hlen : (a.isEmpty && decide (cp.comps.length + 1 - 1 > 0)) = false := by
     cases a with
     | nil => simp [pathOf_nil hp]
@@ -1592,7 +1639,9 @@ theorem divertStep_ok {root : Obj} (ht : TreeOK root) (src s3 : StoryState) (h :
         omega
       have hwf' := appendIdx_wf hwf (pathOf_rel hp) _ hnle
       have hpp := pointerAtPath_appendIdx hp hres hisc src.core.divertedPtr.index.toNat
-      have hcast : ((src.core.divertedPtr.index.toNat : Nat) : Int) = src.core.divertedPtr.index := by omega
+      have hcast : wrapI32 ((src.core.divertedPtr.index.toNat : Nat) : Int) = src.core.divertedPtr.index := by
+        have : ((src.core.divertedPtr.index.toNat : Nat) : Int) = src.core.divertedPtr.index := by omega
+        rw [this]; exact wrapI32_of_inI32 hidx
       have hnd : normDivert root src.core.divertedPtr = { container := some a, index := src.core.divertedPtr.index } := by
         simp only [normDivert, hc, hi, if_true]
         rw [← hc]
@@ -1757,13 +1806,14 @@ theorem normElem_eq (el : Element) (h : ExactElem el) : normElem el = el := by
         simp [normVal_eq_self kv.2 (h.temps kv hkv)]
     _ = temps := by simp
 
-/-- The previous pointer is null, or the slot of an unnamed child of a container. -/
+/-- The previous pointer is null, or the slot (with a 32-bit index: the load truncates it with
+    `index as i32`) of an unnamed child of a container. -/
 def ExactPrev (root : Obj) (p : Ptr) : Prop :=
   p = Ptr.null ∨ ∃ b par c, p.container = some b ∧ nodeAt root b = some par ∧ 0 ≤ p.index ∧
-    par.content[p.index.toNat]? = some c ∧ c.validName = none
+    inI32 p.index = true ∧ par.content[p.index.toNat]? = some c ∧ c.validName = none
 
 theorem normPrev_eq (root : Obj) (p : Ptr) (h : ExactPrev root p) : normPrev root p = p := by
-  rcases h with rfl | ⟨b, par, c, hc, hb, hi, hch, hv⟩
+  rcases h with rfl | ⟨b, par, c, hc, hb, hi, h32, hch, hv⟩
   · rfl
   · have hlt : p.index.toNat < par.content.length := by
       rcases Nat.lt_or_ge p.index.toNat par.content.length with h | h
@@ -1780,9 +1830,9 @@ theorem normPrev_eq (root : Obj) (p : Ptr) (h : ExactPrev root p) : normPrev roo
       rw [nodeAt_append, hb]; simp [nodeAt, Obj.child, hch]
     have hcast : ((p.index.toNat : Nat) : Int) = p.index := by omega
     obtain ⟨pc, pi⟩ := p
-    simp only at hc hcast
+    simp only at hc hcast h32
     subst hc
-    simp [normPrev, Ptr.isNull, hres, ptrOfAddr, hnode, hv, hcast]
+    simp [normPrev, Ptr.isNull, hres, ptrOfAddr, hnode, hv, hcast, wrapI32_of_inI32 h32]
 
 structure ExactThread (root : Obj) (t : Thread) : Prop where
   elems : ∀ el ∈ t.callstack, ExactElem el
@@ -2124,17 +2174,17 @@ theorem validName_ne_nil {o : Obj} {n : String} (h : o.validName = some n) : n.t
         rfl
   | _ => simp [Obj.validName] at h
 
-theorem comps_wf_of_names (a : Addr) : ∀ (sub : Obj) (cs : List Comp),
+theorem comps_wf_of_names (a : Addr) : ∀ (sub : Obj) (cs : List Comp), WFTree sub →
     (∀ a' o, nodeAt sub a' = some o → namesOkB o = true) → compsOf sub a = some cs →
     ∀ c ∈ cs, c.WF ∧ c.toText ≠ [] := by
   induction a with
   | nil =>
-    intro sub cs _ hcs c hc
+    intro sub cs _ _ hcs c hc
     simp only [compsOf, Option.some.injEq] at hcs
     subst hcs
     cases hc
   | cons s rest ih =>
-    intro sub cs hall hcs c hc
+    intro sub cs hwf hall hcs c hc
     simp only [compsOf] at hcs
     cases hch : sub.child s with
     | none => simp [hch] at hcs
@@ -2166,7 +2216,11 @@ theorem comps_wf_of_names (a : Addr) : ∀ (sub : Obj) (cs : List Comp),
             | none =>
               simp only [hv] at hk
               cases s with
-              | named _ => cases hk
+              | named key =>
+                -- a named-only child of a well-formed node carries its key as (valid) name
+                simp only [Obj.child] at hch
+                have := ((hwf [] sub rfl).namedKeys key ch hch).1
+                rw [hv] at this; cases this
               | idx i =>
                 simp only [Option.some.injEq] at hk
                 subst hk
@@ -2180,9 +2234,11 @@ theorem comps_wf_of_names (a : Addr) : ∀ (sub : Obj) (cs : List Comp),
                 refine ⟨?_, (decimal_spec i).1⟩
                 show i ≤ usizeMax
                 omega
-          · exact ih ch ks (fun a' o ho => hall (s :: a') o (by simp [nodeAt, hch, ho])) hks c hin
+          · exact ih ch ks (fun a' o ho => hwf (s :: a') o (by simp [nodeAt, hch, ho]))
+              (fun a' o ho => hall (s :: a') o (by simp [nodeAt, hch, ho])) hks c hin
 
-theorem pathsWF_of_names (root : Obj) (h : ∀ a o, nodeAt root a = some o → namesOkB o = true) :
+theorem pathsWF_of_names (root : Obj) (hwf : WFTree root)
+    (h : ∀ a o, nodeAt root a = some o → namesOkB o = true) :
     PathsWF root := by
   intro a p hp
   unfold pathOf at hp
@@ -2191,7 +2247,7 @@ theorem pathsWF_of_names (root : Obj) (h : ∀ a o, nodeAt root a = some o → n
   | some cs =>
     simp only [hcs, Option.map_some, Option.some.injEq] at hp
     subst hp
-    have hall := comps_wf_of_names a root cs h hcs
+    have hall := comps_wf_of_names a root cs hwf h hcs
     refine ⟨fun c hc => (hall c hc).1, ?_, ?_⟩
     · intro hr; cases hr
     · intro _ c hc
@@ -2206,8 +2262,8 @@ def treeOkB (fuel : Nat) (root : Obj) : Bool := wfTreeB fuel root && allNodesB n
 
 theorem treeOkB_sound (fuel : Nat) (root : Obj) (h : treeOkB fuel root = true) : TreeOK root := by
   simp only [treeOkB, Bool.and_eq_true] at h
-  exact ⟨C06.wfTreeB_sound fuel root h.1,
-    pathsWF_of_names root (fun a o ha => (allAt namesOkB fuel).tree root h.2 a o ha)⟩
+  have hwf := C06.wfTreeB_sound fuel root h.1
+  exact ⟨hwf, pathsWF_of_names root hwf (fun a o ha => (allAt namesOkB fuel).tree root h.2 a o ha)⟩
 
 /-! ### the state of a new story -/
 
@@ -2221,7 +2277,7 @@ theorem flowOK_fresh (root : Obj) (hcont : root.isContainer = true) (name : Stri
     refine ⟨?_, by intro kv hkv; cases hkv⟩
     simp only [ValidPtr, CallStack.rootElement, Ptr.startOf]
     exact ⟨⟨root, rfl, hcont⟩, by decide⟩
-  refine ⟨⟨?_, by simp [CallStack.fresh], ?_, by simp [CallStack.fresh, u64Max]⟩, ?_, ?_, ?_, ?_⟩
+  refine ⟨⟨?_, by simp [CallStack.fresh], ?_, by simp [CallStack.fresh, u64Max]⟩, ?_, ?_, ?_, ?_, ?_⟩
   · intro t ht
     simp only [CallStack.fresh, List.mem_singleton] at ht
     subst ht; exact hthread
@@ -2229,6 +2285,7 @@ theorem flowOK_fresh (root : Obj) (hcont : root.isContainer = true) (name : Stri
     simp only [CallStack.fresh, List.mem_singleton] at ht
     subst ht; simp
   · intro o ho; cases ho
+  · intro c hc; cases hc
   · intro c hc; cases hc
   · intro c hc; cases hc
   · intro c hc; cases hc
@@ -2422,7 +2479,7 @@ theorem exThread1_ok : ThreadOK exRoot exThread1 := by
   intro kv hkv; cases hkv
 
 theorem exFlow_ok : FlowOK exRoot exFlow := by
-  refine ⟨⟨?_, by simp [exFlow], ?_, by simp [exFlow, u64Max]⟩, ?_, ?_, ?_, ?_⟩
+  refine ⟨⟨?_, by simp [exFlow], ?_, by simp [exFlow, u64Max]⟩, ?_, ?_, ?_, ?_, ?_⟩
   · intro t ht
     simp only [exFlow, List.mem_singleton] at ht
     subst ht; exact exThread0_ok
@@ -2448,6 +2505,12 @@ theorem exFlow_ok : FlowOK exRoot exFlow := by
     rw [h₁] at h₂
     simp only [Option.some.injEq] at h₂
     rw [h₂]
+  · intro c hc t hthr
+    simp only [exFlow, List.mem_singleton] at hc
+    subst hc
+    simp only [exChoice, Option.some.injEq] at hthr
+    subst hthr
+    simp [exThread1]
 
 theorem exState_ok : StateOK exRoot exState := by
   refine ⟨?_, by simp [flowsList, exState], ?_, ?_, True.intro, ?_, ?_, by decide, by decide, by decide⟩
@@ -2482,7 +2545,7 @@ def exStory : Story :=
 theorem exStory_saveable : Saveable exStory := ⟨exRoot_treeOK, exState_ok⟩
 
 theorem exThread0_exact : ExactThread exRoot exThread0 := by
-  refine ⟨?_, Or.inr ⟨[], exRoot, .val (.str "Hello"), rfl, rfl, by decide, rfl, rfl⟩⟩
+  refine ⟨?_, Or.inr ⟨[], exRoot, .val (.str "Hello"), rfl, rfl, by decide, by decide, rfl, rfl⟩⟩
   intro el hel
   simp only [exThread0, List.mem_singleton] at hel
   subst hel
@@ -2622,16 +2685,47 @@ example (tgt : StoryState) :
 
 /-! ## 8. Consequences -/
 
-/-- A non-finite float is written as `null`, which the loader rejects: a state holding one (e.g.
-    after `1.0 / 0.0`, which the interpreter evaluates to infinity) saves "successfully" to a
-    document that cannot be loaded.  This is why `SaveableVal` asks floats to be finite, and why
-    `Saveable` is NOT an invariant of all reachable states. -/
-theorem nonfinite_float_not_loadable (f : Float32) (h : f.isNaN = true ∨ f.isInf = true) :
+/-- A non-finite float is written as a finite number (`clampF32`: NaN as `0.0`, an infinity as
+    `±3.4e38`), and loads back as that number: the save of a state holding one (e.g. after
+    `1.0 / 0.0`, which the interpreter evaluates to infinity) can be loaded, but the value that
+    comes back is the finite one.  (With the earlier `null` the document could not be loaded.) -/
+theorem nonfinite_float_clamped (f : Float32) :
     (writeObj (.val (.float f))).bind readObj
-      = .err "BadJson" "Failed to convert token to runtime RTObject: null" := by
-  have : (f.isNaN || f.isInf) = true := by
-    rcases h with h | h <;> simp [h]
-  simp [writeObj, f32ToJson, this, Out.bind, readObj, Load.tokenToObj, Out.badJson]
+      = .ok (.val (.float (Load.floatOfRaw (f32Text (clampF32 f)))))
+    ∧ (clampF32 f).isNaN = false ∧ (clampF32 f).isInf = false
+    ∧ (f.isNaN = true → clampF32 f = Float32.ofBits 0 ∧ f32Text (clampF32 f) = "0.0")
+    ∧ (f.isNaN = false → f.isInf = true → f > 0.0 →
+        clampF32 f = Float32.ofBits 0x7F7FC99E ∧
+        f32Text (clampF32 f) = "340000000000000000000000000000000000000.0")
+    ∧ (f.isNaN = false → f.isInf = true → ¬ f > 0.0 →
+        clampF32 f = Float32.ofBits 0xFF7FC99E ∧
+        f32Text (clampF32 f) = "-340000000000000000000000000000000000000.0") := by
+  have t0 : f32Text (Float32.ofBits 0) = "0.0" := by decide +kernel
+  have t1 : f32Text (Float32.ofBits 0x7F7FC99E) = "340000000000000000000000000000000000000.0" := by
+    decide +kernel
+  have t2 : f32Text (Float32.ofBits 0xFF7FC99E) = "-340000000000000000000000000000000000000.0" := by
+    decide +kernel
+  refine ⟨readObj_writeObj (.val (.float f)) True.intro, (clampF32_isFinite f).1, (clampF32_isFinite f).2,
+    ?_, ?_, ?_⟩
+  · intro h
+    have : clampF32 f = Float32.ofBits 0 := by simp [clampF32, h]
+    rw [this]; exact ⟨rfl, t0⟩
+  · intro h1 h2 h3
+    have : clampF32 f = Float32.ofBits 0x7F7FC99E := by simp [clampF32, h1, h2, h3]
+    rw [this]; exact ⟨rfl, t1⟩
+  · intro h1 h2 h3
+    have : clampF32 f = Float32.ofBits 0xFF7FC99E := by simp [clampF32, h1, h2, h3]
+    rw [this]; exact ⟨rfl, t2⟩
+
+/-- A non-finite float is not in normal form: the exact round trip (`readObj_writeObj_exact`,
+    `loadState_saveState_exact`) does not cover it. -/
+theorem nonfinite_float_not_exact (f : Float32) (h : f.isNaN = true ∨ f.isInf = true) :
+    ¬ ExactVal (.float f) := by
+  intro he
+  obtain ⟨h1, h2, _⟩ := (he : f.isNaN = false ∧ f.isInf = false ∧ Load.floatOfRaw (f32Text f) = f)
+  rcases h with h | h
+  · rw [h1] at h; cases h
+  · rw [h2] at h; cases h
 
 /-- An integer outside 32 bits (none is produced by the interpreter's wrapping arithmetic) is
     written as is and rejected or turned into a float by the loader. -/
@@ -2757,7 +2851,7 @@ theorem saveableItemB_sound (i : ListItem) (h : saveableItemB i = true) : Saveab
 def saveableValB : Val → Bool
   | .bool _ => true
   | .int i => inI32 i
-  | .float f => !f.isNaN && !f.isInf
+  | .float _ => true
   | .str _ => true
   | .list l => l.items.all (fun kv => saveableItemB kv.1 && inI32 kv.2)
   | .dtarget p => p.wfB
@@ -2767,9 +2861,7 @@ theorem saveableValB_sound (v : Val) (h : saveableValB v = true) : SaveableVal v
   cases v with
   | bool _ => exact True.intro
   | int i => exact h
-  | float f =>
-    simp only [saveableValB, Bool.and_eq_true, Bool.not_eq_true'] at h
-    exact h
+  | float f => exact True.intro
   | str _ => exact True.intro
   | list l =>
     simp only [saveableValB, List.all_eq_true, Bool.and_eq_true] at h
@@ -2871,12 +2963,13 @@ theorem nodup_map_inj {α β : Type} (f : α → β) (l : List α) (h : (l.map f
 def choiceThreadIndex (c : Choice) : Nat := (choiceThread c).index
 
 /-- Sufficient for `FlowOK`: the thread indices of the choices are pairwise distinct and none of
-    them is the index of a thread on the call stack (what `fork_thread` guarantees). -/
+    them is the index of a thread on the call stack (what `fork_thread` guarantees), and every
+    choice thread has a call stack. -/
 def flowOkB (root : Obj) (f : Flow) : Bool :=
   callStackOkB root f.callstack && f.output.all saveableObjB
     && f.choices.all (fun c => decide ((c.index : Int) ≤ u64Max) && c.targetPath.wfB
         && (match c.thread with
-            | some t => threadOkB root t
+            | some t => threadOkB root t && !t.callstack.isEmpty
             | none => false))
     && decide ((f.choices.map choiceThreadIndex).Nodup)
     && f.choices.all (fun c => (f.callstack.getThreadWithIndex (choiceThreadIndex c)).isNone)
@@ -2884,13 +2977,15 @@ def flowOkB (root : Obj) (f : Flow) : Bool :=
 theorem flowOkB_sound (root : Obj) (f : Flow) (h : flowOkB root f = true) : FlowOK root f := by
   simp only [flowOkB, Bool.and_eq_true, List.all_eq_true, decide_eq_true_eq] at h
   obtain ⟨⟨⟨⟨h1, h2⟩, h3⟩, h4⟩, h5⟩ := h
-  refine ⟨callStackOkB_sound root f.callstack h1, fun o ho => saveableObjB_sound o (h2 o ho), ?_, ?_, ?_⟩
+  refine ⟨callStackOkB_sound root f.callstack h1, fun o ho => saveableObjB_sound o (h2 o ho), ?_, ?_, ?_, ?_⟩
   · intro c hc
     obtain ⟨⟨hi, hp⟩, ht⟩ := h3 c hc
     refine ⟨⟨hi, path_wfB_sound _ hp⟩, ?_⟩
     cases hthr : c.thread with
     | none => simp [hthr] at ht
-    | some t => exact ⟨t, rfl, threadOkB_sound root t (by simpa [hthr] using ht)⟩
+    | some t =>
+      simp only [hthr, Bool.and_eq_true] at ht
+      exact ⟨t, rfl, threadOkB_sound root t ht.1⟩
   · intro c hc t t' hthr hg
     have := h5 c hc
     have hidx : choiceThreadIndex c = t.index := by simp [choiceThreadIndex, choiceThread, hthr]
@@ -2904,6 +2999,10 @@ theorem flowOkB_sound (root : Obj) (f : Flow) (h : flowOkB root f = true) : Flow
     rw [h₁] at h₂
     simp only [Option.some.injEq] at h₂
     rw [h₂]
+  · intro c hc t hthr hnil
+    have := (h3 c hc).2
+    simp only [hthr, hnil, List.isEmpty_nil, Bool.not_true, Bool.and_false] at this
+    cases this
 
 def stateOkB (root : Obj) (ss : StoryState) : Bool :=
   (flowsList ss).all (fun nf => flowOkB root nf.2)
@@ -3200,28 +3299,42 @@ example : ((exInFunction (-1)).pushToOutput (.val (.str "\n"))).output.length = 
     (normElem (exFrame (-1))).funcStartInOutput = 0 := by
   decide +kernel
 
-/-! ### a state that saves but does not load -/
-
-def outIsErr {α : Type} : Out α → Bool
-  | .err _ _ => true
-  | _ => false
+/-! ### a state with a non-finite float saves and loads (as the finite number written) -/
 
 /-- The mid-game state of section 7 with a global holding `1.0 / 0.0` (the interpreter's float
     division does not check the divisor, so this value is reachable). -/
 def exInfState : StoryState :=
   { exState with core := { exState.core with vars := Vars.empty.replaceGlobals [("x", .float ((1.0 : Float32) / 0.0))] } }
 
-/-- **`Saveable` is not an invariant of reachable states** (finding): with an infinite float in a
-    global, `write_json` succeeds (it writes `null`) and the document it produces is rejected by
-    `load_json_obj`. -/
-example : ∃ j, writeState exRoot exInfState = .ok j ∧ outIsErr (loadStateObj exRoot exInfState j).1 = true := by
-  have h : (match writeState exRoot exInfState with
-      | .ok j => outIsErr (loadStateObj exRoot exInfState j).1
-      | _ => false) = true := by decide +kernel
-  cases hw : writeState exRoot exInfState with
-  | ok j => rw [hw] at h; exact ⟨j, rfl, h⟩
-  | err k m => rw [hw] at h; cases h
-  | panic p => rw [hw] at h; cases h
+theorem exInfState_ok : StateOK exRoot exInfState := stateOkB_sound exRoot exInfState (by decide +kernel)
+
+/-- `1.0 / 0.0` is written as `340000000000000000000000000000000000000.0` and read back as the
+    `f32` nearest to that number. -/
+theorem exInf_roundtrip :
+    (writeObj (.val (.float ((1.0 : Float32) / 0.0)))).bind readObj
+      = .ok (.val (.float (Load.floatOfRaw "340000000000000000000000000000000000000.0"))) := by
+  obtain ⟨h, _, _, _, hpos, _⟩ := nonfinite_float_clamped ((1.0 : Float32) / 0.0)
+  rw [h, (hpos (by decide +kernel) (by decide +kernel) (by decide +kernel)).2]
+
+/-- **A non-finite float no longer makes a save unloadable** (the earlier finding: `write_json`
+    wrote `null`, which `load_json_obj` rejects).  With an infinite float in a global the state is
+    `StateOK`, `write_json` succeeds, the document loads, and the global comes back as the finite
+    number that was written, not as the infinity: the round trip is not exact
+    (`nonfinite_float_not_exact`). -/
+example : ∃ j, writeState exRoot exInfState = .ok j ∧
+    loadStateObj exRoot exInfState j = (.ok (), restoredState exRoot exInfState exInfState) ∧
+    (restoredState exRoot exInfState exInfState).core.vars.globals
+      = [("x", .float (Load.floatOfRaw "340000000000000000000000000000000000000.0")), ("l", .list exList)] ∧
+    exInfState.core.vars.globals = [("x", .float ((1.0 : Float32) / 0.0))] := by
+  refine ⟨_, writeState_ok exRoot_treeOK exInfState exInfState_ok,
+    loadStateObj_ok exRoot_treeOK exInfState exInfState exInfState_ok, ?_, rfl⟩
+  obtain ⟨_, _, _, _, hpos, _⟩ := nonfinite_float_clamped ((1.0 : Float32) / 0.0)
+  have htext := (hpos (by decide +kernel) (by decide +kernel) (by decide +kernel)).2
+  have hch : changedGlobals exInfState.core = [("x", .float ((1.0 : Float32) / 0.0))] := by
+    simp [changedGlobals, exInfState, exState, Vars.replaceGlobals, alGet, valEqual]
+  show restoredGlobals exInfState.core.defaultGlobals (changedGlobals exInfState.core) = _
+  rw [hch]
+  simp [restoredGlobals, exInfState, exState, alGet, normVal, htext]
 
 end C02
 end Ink
@@ -3245,7 +3358,8 @@ end Ink
 #print axioms Ink.C02.treeOkB_sound
 #print axioms Ink.C02.create_saveable
 #print axioms Ink.C02.exStory_saveable
-#print axioms Ink.C02.nonfinite_float_not_loadable
+#print axioms Ink.C02.nonfinite_float_clamped
+#print axioms Ink.C02.nonfinite_float_not_exact
 #print axioms Ink.C02.restoredState_eq
 #print axioms Ink.C02.loadState_saveState_self
 #print axioms Ink.C02.loadState_saveState_state_eq
